@@ -89,7 +89,8 @@ Fixpoint groups_of_values (a o : list value) : option (list (Z * list op * list 
       | Some g, Some gs => Some (g :: gs) | _, _ => None end
   | _, _ => None end.
 
-(* prov.lsn: steps [0 T] (key exchange) | [1 T lsn c] (request over listener lsn with the c-th cookie
+(* prov.lsn: steps [0 T kind delay] (key exchange; kind 2/3: a client that sends its request only delay after the handshake;
+   the observation is the answer) / [0 T] (key exchange) | [1 T lsn c] (request over listener lsn with the c-th cookie
    ever handed out); observed per step [tlo thi answered [key ids of the cookies handed out]].
    The clock reading of a step is thi. *)
 Fixpoint lsn_build (handed : list Z) (steps outs : list value) : option (list lstep * list lobs) :=
@@ -100,7 +101,7 @@ Fixpoint lsn_build (handed : list Z) (steps outs : list value) : option (list ls
       | None => None
       | Some ids =>
           let mk := match st with
-                    | VL [VZ 0; VZ _] | VL [VZ 0; VZ _; VZ _] => Some (LKe thi, LObs thi None (negb (ans =? 0)) ids)
+                    | VL [VZ 0; VZ _] | VL [VZ 0; VZ _; VZ _] | VL [VZ 0; VZ _; VZ _; VZ _] => Some (LKe thi, LObs thi None (negb (ans =? 0)) ids)
                     | VL [VZ 1; VZ _; VZ _; VZ c] =>
                         let kid := nth (Z.to_nat c) handed (-1) in
                         Some (LReq thi kid, LObs thi (Some kid) (negb (ans =? 0)) ids)
